@@ -114,9 +114,11 @@ def run(ctx):
             ic = bool(graph.definition.generators_inverse_closed)
             qlits = []
             for q in qs:
-                r, lit = P.res_path_lit(lambda: MeetInTheMiddle.find_path_to(graph, list(q), ball))
+                cont = G.pick_container(rng, list(q), 0.7)
+                ctx.count("query_container_" + cont)
+                r, lit = P.res_path_lit(lambda: MeetInTheMiddle.find_path_to(graph, G.in_container(cont, list(q)), ball))
                 qlits.append(f"(QMitmTo {czl(q)}, {lit})")
-                case = {"graph": gd, "config": cfgd, "depth": D, "query": q, "finder": "mitm_to"}
+                case = {"graph": gd, "config": cfgd, "depth": D, "query": q, "container": cont, "finder": "mitm_to"}
                 d = dist.get(tuple(q))
                 ctx.case_seen(case, d is None or d >= 2)
                 ctx.count("mitm_" + ("outside_orbit" if d is None else "within_D" if d <= Deff else "within_2D" if d <= 2 * Deff else "beyond_2D"))
@@ -124,7 +126,7 @@ def run(ctx):
                 if msg:
                     ctx.violation("property_fails", msg, case, True)
                 if ic:
-                    r, lit = P.res_path_lit(lambda: MeetInTheMiddle.find_path_from(graph, list(q), ball))
+                    r, lit = P.res_path_lit(lambda: MeetInTheMiddle.find_path_from(graph, G.in_container(cont, list(q)), ball))
                     qlits.append(f"(QMitmFrom {czl(q)}, {lit})")
                     case = dict(case, finder="mitm_from")
                     ctx.case_seen(case, d is None or d >= 2)
@@ -194,10 +196,10 @@ def replay(ctx, obj):
                 Deff = len(ball.layer_sizes) - 1
                 q = case["query"]
                 if f == "mitm_to":
-                    r, _ = P.res_path_lit(lambda: MeetInTheMiddle.find_path_to(graph, list(q), ball))
+                    r, _ = P.res_path_lit(lambda: MeetInTheMiddle.find_path_to(graph, G.in_container(case.get("container"), list(q)), ball))
                     msg = check_mitm_to(gd, dist, Deff, q, r, tuple(gd["central"]))
                 else:
-                    r, _ = P.res_path_lit(lambda: MeetInTheMiddle.find_path_from(graph, list(q), ball))
+                    r, _ = P.res_path_lit(lambda: MeetInTheMiddle.find_path_from(graph, G.in_container(case.get("container"), list(q)), ball))
                     msg = check_mitm_from(gd, dist, Deff, q, r, tuple(gd["central"]))
             if msg is None:
                 return None
